@@ -393,6 +393,7 @@ def run_impl(case):
             pass
     # the oracle is evaluated here (in the worker) on the full snapshots; only what the comparisons need travels back
     obs["findings"] = _compute_findings(obs)
+    obs["latent"] = _latent_regions(obs)
     keep_full = bool(obs["findings"]) or case.get("keep_snapshots")
     for st in obs["steps"]:
         if "snap" in st and not keep_full:
@@ -693,6 +694,23 @@ def _compute_findings(obs):
     return out
 
 
+def _latent_regions(obs):
+    """The defect behind an open finding is present in the state although the property (which speaks about RUNNING flows)
+    is not violated: e.g. a stopped parent still listing a cleaned-up child. Model (repaired behaviour) and code differ there."""
+    out = set()
+    for st in obs.get("steps", []):
+        sn = st.get("snap")
+        if not sn or "exc" in st:
+            continue
+        uids = {i["uid"] for i in sn["insts"]}
+        for i in sn["insts"]:
+            if any(c not in uids for c in i.get("children", [])):
+                out.add("dangling-child")
+            if any(a not in sn.get("actions", {}) for a in i.get("scope_actions", [])):
+                out.add("dangling-scope-action")
+    return sorted(out)
+
+
 def oracle(case, obs):
     f = _findings(case, obs)
     return f[0][1] if f else None
@@ -705,6 +723,9 @@ def signature(case, obs, msg):
         if s == "index-name-stale" and gen.shares_context(case):
             return "index-name-stale:shared-context"
         return s
+    lat = obs.get("latent") or []
+    if lat and msg and "CoreVM" in msg:
+        return lat[0]
     return None
 
 
